@@ -73,7 +73,9 @@ namespace OpenMEEG {
         const unsigned nbIntegrationPoints = sensors.getNumberOfPositions();
         unsigned p0_p1_size = geo.nb_parameters()-geo.nb_current_barrier_triangles();
 
-        Matrix FergusonMat(3*nbIntegrationPoints,geo.vertices().size());
+        //  Columns are addressed by Vertex::index(), which ranges over the unknowns (not over the vertex numbers).
+
+        Matrix FergusonMat(3*nbIntegrationPoints,p0_p1_size);
         FergusonMat.set(0.0);
 
         assemble_ferguson(geo,FergusonMat,positions);
@@ -84,6 +86,8 @@ namespace OpenMEEG {
         ProgressBar pb(nbIntegrationPoints);
         for (unsigned i=0; i<nbIntegrationPoints; ++i,++pb) {
             for (const auto& vertex : geo.vertices()) {
+                if (vertex.index()==static_cast<unsigned>(-1)) // Vertex of isolated meshes only: no unknown.
+                    continue;
                 const Vect3 fergusonField(FergusonMat(3*i,vertex.index()),
                                           FergusonMat(3*i+1,vertex.index()),
                                           FergusonMat(3*i+2,vertex.index()));
